@@ -3,7 +3,7 @@ SPECIFICATION MCSpec
 CONSTANTS
   SkipUseless = TRUE
   MaxPods = 2
-  CVals = {0, 1, 2}
+  CVals = {0, 1}
   Needs = {0, 1, 2}
   Universe = "twodiff"
 INVARIANT NoViolation
